@@ -43,7 +43,7 @@ def _is_set(kind: str, value) -> bool:
 
 
 def _run(level: str, kind_i: int, required: bool, has_default: bool, present: bool, valkind: int, prior: bool,
-         v_raises: bool, v_outer_raises: bool, flag: int) -> bool:
+         v_raises: bool, v_outer_raises: bool, flag: int, omit: bool = False) -> bool:
     kind = KINDS[0]
     for i in range(len(KINDS)):
         if kind_i == i:
@@ -102,6 +102,9 @@ def _run(level: str, kind_i: int, required: bool, has_default: bool, present: bo
     elif level == "ct":
         tree = {"ct": leaf}
     else:
+        tree = {}
+    if omit:
+        # the document does not mention the (sub)configuration at all: its defaults stay, and it is still validated
         tree = {}
     # effective value of r after the load (reference)
     default_val = _value(kind, 2) if False else ({"int": 5, "str": "d", "list": [1]}[kind] if has_default else None)
@@ -184,18 +187,20 @@ def _mk(level: str):
                      "field and no raising validator in an enabled configuration; raised type is ValidationError; "
                      "collecting mode agrees; validator log == enabled levels" % level)
     def ob(kind_i: int, required: bool, has_default: bool, present: bool, valkind: int, prior: bool,
-           v_raises: bool, v_outer_raises: bool, flag: int) -> bool:
+           v_raises: bool, v_outer_raises: bool, flag: int, omit: bool) -> bool:
         """
         pre: 0 <= kind_i <= 2 and 0 <= valkind <= 2 and 0 <= flag <= 2
         post: _
         """
+        if omit and (present or level in ("root", "item_load", "item_append")):
+            skip("omitting the key: only for sub-configurations, with nothing to put under it")
         if not present and valkind:
             skip("value unused")
         if level not in ("sub", "deep") and flag:
             skip("flag unused")
         if level != "root" and prior:
             skip("prior unused")
-        return _run(level, kind_i, required, has_default, present, valkind, prior, v_raises, v_outer_raises, flag)
+        return _run(level, kind_i, required, has_default, present, valkind, prior, v_raises, v_outer_raises, flag, omit)
 
 
 for _l in LEVELS:
